@@ -58,6 +58,26 @@ Definition wsx_lib : node :=
     Node KAstModule [97;76;105;98] 0 (mkRange (mkPos 0 0) (mkPos 0 11)) [(1, AT (mkTok 7 (mkRange (mkPos 0 7) (mkPos 0 11)) TIdentifier [97;76;105;98]))] [];
     Node KAstConstantDeclaration [99;76;105;98] 12 (mkRange (mkPos 1 0) (mkPos 1 14)) [(1, AT (mkTok 18 (mkRange (mkPos 1 6) (mkPos 1 10)) TIdentifier [99;76;105;98])); (6, AN 0); (7, AL [(mkTok 25 (mkRange (mkPos 1 13) (mkPos 1 14)) TNumericLiteral [49])])] []].
 
+(* real parser, text: 'class aUser\nproc Go(q : aChild)\n q.fc = 1\n aLib.cLib\nendproc\n' *)
+Definition wsx_user : node :=
+  Node KAstRoot [] 0 (mkRange (mkPos 0 0) (mkPos 0 0)) [] [
+    Node KAstClass [97;85;115;101;114] 0 (mkRange (mkPos 0 0) (mkPos 0 11)) [(1, AT (mkTok 6 (mkRange (mkPos 0 6) (mkPos 0 11)) TIdentifier [97;85;115;101;114])); (2, AL [])] [];
+    Node KAstProcedure [71;111] 12 (mkRange (mkPos 1 0) (mkPos 4 7)) [(5, AL [(mkTok 53 (mkRange (mkPos 4 0) (mkPos 4 7)) TEndProc [101;110;100;112;114;111;99])]); (6, AN 0)] [
+      Node KAstTerminal [71;111] 17 (mkRange (mkPos 1 5) (mkPos 1 7)) [(0, AT (mkTok 17 (mkRange (mkPos 1 5) (mkPos 1 7)) TIdentifier [71;111]))] [];
+      Node KAstParameterDeclarationList [112;97;114;97;109;95;100;101;99;108;115] 19 (mkRange (mkPos 1 7) (mkPos 1 19)) [] [
+        Node KAstParameterDeclaration [113] 20 (mkRange (mkPos 1 8) (mkPos 1 18)) [(1, AT (mkTok 20 (mkRange (mkPos 1 8) (mkPos 1 9)) TIdentifier [113])); (7, AL [])] [
+          Node KAstTypeBasic [97;67;104;105;108;100] 24 (mkRange (mkPos 1 12) (mkPos 1 18)) [(0, AT (mkTok 24 (mkRange (mkPos 1 12) (mkPos 1 18)) TIdentifier [97;67;104;105;108;100]))] []]];
+      Node KAstMethodBody [109;101;116;104;111;100;95;98;111;100;121] 33 (mkRange (mkPos 2 1) (mkPos 3 10)) [] [
+        Node KAstBinaryOp [61] 33 (mkRange (mkPos 2 1) (mkPos 2 9)) [(4, AT (mkTok 38 (mkRange (mkPos 2 6) (mkPos 2 7)) TEquals [61]))] [
+          Node KAstBinaryOp [46] 33 (mkRange (mkPos 2 1) (mkPos 2 5)) [(4, AT (mkTok 34 (mkRange (mkPos 2 2) (mkPos 2 3)) TDot [46]))] [
+            Node KAstTerminal [113] 33 (mkRange (mkPos 2 1) (mkPos 2 2)) [(0, AT (mkTok 33 (mkRange (mkPos 2 1) (mkPos 2 2)) TIdentifier [113]))] [];
+            Node KAstTerminal [102;99] 35 (mkRange (mkPos 2 3) (mkPos 2 5)) [(0, AT (mkTok 35 (mkRange (mkPos 2 3) (mkPos 2 5)) TIdentifier [102;99]))] []];
+          Node KAstTerminal [49] 40 (mkRange (mkPos 2 8) (mkPos 2 9)) [(0, AT (mkTok 40 (mkRange (mkPos 2 8) (mkPos 2 9)) TNumericLiteral [49]))] []];
+        Node KAstBinaryOp [46] 43 (mkRange (mkPos 3 1) (mkPos 3 10)) [(4, AT (mkTok 47 (mkRange (mkPos 3 5) (mkPos 3 6)) TDot [46]))] [
+          Node KAstTerminal [97;76;105;98] 43 (mkRange (mkPos 3 1) (mkPos 3 5)) [(0, AT (mkTok 43 (mkRange (mkPos 3 1) (mkPos 3 5)) TIdentifier [97;76;105;98]))] [];
+          Node KAstTerminal [99;76;105;98] 48 (mkRange (mkPos 3 6) (mkPos 3 10)) [(0, AT (mkTok 48 (mkRange (mkPos 3 6) (mkPos 3 10)) TIdentifier [99;76;105;98]))] []]]]].
+
+
 Definition wx_aChild : str := [97;67;104;105;108;100].
 Definition wx_aParent : str := [97;80;97;114;101;110;116].
 Definition wx_aLib : str := [97;76;105;98].
@@ -115,4 +135,19 @@ Lemma wsx_cyc_facts :
   wdefinition wsx_cyc 0 (mkPos 5 14) = Ans [] /\
   wdefinition wsx_cyc 0 (mkPos 5 9) = Ans [(wx_aChild, wrg 2 0 2 2, wrg 2 0 2 9)] /\
   length (lineage (absws wsx_cyc) wx_aChild) = 3%nat.
+Proof. vm_compute. repeat split; reflexivity. Qed.
+
+(* a fourth document whose method has a parameter of class type: `q.fc` and `aLib.cLib` *)
+Definition wx_aUser : str := [97;85;115;101;114].
+Definition wsx2 : wst := wsx ++ [(wx_aUser, wsx_user)].
+
+Lemma wsx2_facts :
+  ws_okb wsx2 = true /\ ws_acyclicb wsx2 = true /\ distinct_stems wsx2 = true /\
+  (* `q.fc`, q : aChild -> the field of aChild, in aChild.god; `q.fp` would be the inherited one *)
+  wdefinition wsx2 3 (mkPos 2 3) = Ans [(wx_aChild, wrg 2 0 2 2, wrg 2 0 2 9)] /\
+  wcompletion wsx2 3 (mkPos 2 3) = Ans [[102;99]; wx_Run; wx_Base; wx_fp] /\
+  (* `aLib.cLib`: the constant of the module named before the dot *)
+  wdefinition wsx2 3 (mkPos 3 6) = Ans [(wx_aLib, wrg 1 6 1 10, wrg 1 0 1 14)] /\
+  definition_member (absws wsx2) wx_aUser (Some [71;111]) wx_aChild [102;99] = [(wx_aChild, 1)] /\
+  completion_member (absws wsx2) wx_aUser (Some [71;111]) wx_aChild = [[102;99]; wx_Run; wx_Base; wx_fp].
 Proof. vm_compute. repeat split; reflexivity. Qed.
